@@ -182,6 +182,7 @@ def run_check(pid, tier, seed, replay=None, write_evidence=True):
         viol = []
         known_hit = {}
         drift = 0
+        drift_by = {}
         ctl_accepted = [c for c in ctl if not [f for f in verdicts.get(c["id"], []) if not f.startswith("DRIFT:")]]
         for eid, failed in verdicts.items():
             if eid < 0:
@@ -195,6 +196,8 @@ def run_check(pid, tier, seed, replay=None, write_evidence=True):
             dr = [f for f in failed if f.startswith("DRIFT:")]
             if dr:
                 drift += 1
+                for f in dr:
+                    drift_by[f] = drift_by.get(f, 0) + 1
                 if drift <= 5:
                     lines.append("MODEL-DRIFT property=%s event=%s %s (the code differs from the as-built model; not a violation)" % (pid, eid, dr[:3]))
             failed = [f for f in failed if not f.startswith("DRIFT:")]
@@ -207,6 +210,8 @@ def run_check(pid, tier, seed, replay=None, write_evidence=True):
                     unlisted.append(cl)
             if unlisted:
                 viol.append((ev, unlisted))
+        for f, cnt in sorted(drift_by.items()):
+            lines.append("MODEL-DRIFT-SUMMARY property=%s %s in %d event(s)" % (pid, f, cnt))
         for kid, (k, cnt) in sorted(known_hit.items()):
             lines.append("KNOWN-FINDING: property=%s %s [%s; %d event(s) this run]" % (pid, k["what"], kid, cnt))
         os.makedirs(os.path.join(ROOT, "replays", pid), exist_ok=True)
